@@ -1,5 +1,6 @@
 import SkaModel.Core.Loop
 import SkaModel.Props.C01
+import SkaModel.Props.C01seq
 
 /-!
 # C14 — a pool active-learning loop labels every sample exactly once
@@ -216,6 +217,30 @@ theorem skeletonA_loop {α : Type} [LinearOrder α] [Zero α] [Add α] {β : Typ
     (by unfold unl at hpos; omega) (by omega) hn2
   rw [hquery y' rs hrs]
   exact ⟨by unfold unl; exact h1, h2, h3⟩
+
+/-- The loop strategies (CoreSet, ProbCover, Clue, DropQuery, DiscriminativeAL, FourDs, GreedySamplingX,
+RegressionTreeBasedAL[random|diversity]) discharge the hypothesis of `alLoop_exhausts` through
+`maskedSeq_valid`: if at every labeling the query is a masked sequential arg-max selection over
+`min(b, #unlabeled)` rows (whatever the rows are) that are NaN outside the unlabeled samples, contain a
+number, and obey the mask discipline, the loop labels every sample exactly once. -/
+theorem maskedSeq_loop {α : Type} [LinearOrder α] {β : Type} [LinearOrder β] [Zero β]
+    (b : Nat) (hb : 0 < b)
+    (rowsOf : List Bool → List (List (Option α))) (noiseOf : List Bool → List (List β))
+    (hshape : ∀ y, (rowsOf y).length = min b (unl y) ∧ (rowsOf y).length = (noiseOf y).length)
+    (hrows : ∀ y, ∀ k, ∀ hk : k < (rowsOf y).length, ∀ hk' : k < (noiseOf y).length,
+        ((noiseOf y)[k]).length = ((rowsOf y)[k]).length ∧ (∀ x ∈ (noiseOf y)[k], 0 < x) ∧
+          0 < countSome ((rowsOf y)[k]))
+    (hcand : ∀ y, ∀ row ∈ rowsOf y, Ska.Seq.nanOutsideB (unlabeledIdx y) row = true)
+    (hmask : ∀ y, Ska.Seq.maskOkB [] (rowsOf y) (Ska.Seq.seqPicks (rowsOf y) (noiseOf y)) = true) :
+    ∀ y, Exhausts y b (alLoop (fun y => Ska.Seq.seqPicks (rowsOf y) (noiseOf y)) (unl y) y) := by
+  intro y
+  refine alLoop_exhausts _ b hb ?_ (unl y) y (Nat.le_refl _)
+  intro y' _
+  obtain ⟨hs1, hs2⟩ := hshape y'
+  obtain ⟨h1, h2, h3, -⟩ := Ska.C01seq.maskedSeq_valid (unlabeledIdx y') (rowsOf y') (noiseOf y') hs2
+    (hrows y') (hcand y') (hmask y')
+  obtain ⟨-, hu, -⟩ := unlabeledIdx_spec y'
+  exact ⟨by rw [h1, hs1], h2, fun i hi => (hu i).mp (h3 i hi)⟩
 
 /-! ### non-vacuity -/
 
